@@ -378,6 +378,9 @@ MUTANTS = [
     ('C18', 'recover-no-index', RZ,
      "                shutil.copyfile(source_index, target_index)",
      "                pass"),
+    ('C18', 'verify-ignores-orphan-dat', RZ,
+     "                os.path.join(options.repository, fn) > datfile:\n            raise VerificationFail(",
+     "                os.path.join(options.repository, fn) > datfile and False:\n            raise VerificationFail("),
     ('C18', 'gzip-last-chunk-dropped', RZ,
      "    def func(data):\n        sum.update(data)\n        ofp.write(data)\n\n    ndone = dofile(func, ifp, n)",
      "    def func(data):\n        sum.update(data)\n        ofp.write(data if not options.gzip or len(data) == READCHUNK else data[:-1])\n\n    ndone = dofile(func, ifp, n)"),
